@@ -29,7 +29,10 @@ fn space_for(tier: Tier) -> (Space, usize) {
             (s, 2)
         }
         Tier::Thorough => {
-            s.ast("CI", 5, 32);
+            s.ast("CI", 4, 32);
+            // one more level, restricted to patterns without a quantifier over a
+            // possibly-empty body (the greedy-repeat defect D17 is owned by C01)
+            s.ast_range("CI", 5, 5, 32, 1);
             s.list("letters", N_PAIRS_HINT, 8);
             (s, 3)
         }
@@ -207,7 +210,17 @@ impl Check for C11 {
             _ => unreachable!(),
         };
         let inputs = all_strings(&sigma, maxlen);
+        let restricted = seg.param > 0;
         space::for_each_text(seg, lo, hi, &mut |_i, text| {
+            if restricted {
+                match common::ref_valid(text, ctx) {
+                    Some(p) if !p.ast.has_nullable_loop() => {}
+                    _ => {
+                        out.inc("restricted_layer_skipped");
+                        return;
+                    }
+                }
+            }
             self.one(ctx, out, &scope_name, text, &inputs);
             out.sample(J::obj(vec![("pattern", J::s(text))]));
         });
